@@ -3,3 +3,4 @@ import LadimModel.Generated.Formulas
 import LadimModel.IBM.Chemicals
 import LadimModel.IBM.Sedimentation
 import LadimModel.IBM.Bio
+import LadimModel.IBM.Memory
